@@ -768,4 +768,29 @@ theorem turn_runs_from (s : Setup) (hwf : s.WF) (o : OptsT) (user : String) (bot
 
 
 
+
+/-! ### several calls on one conversation (finite evaluation only) -/
+
+/-- several calls on ONE conversation at the interpreter level: the history a call ends with (incl. `Listen`) is the
+    prefix of the next call's history, as with `generate(..., state=...)` -/
+def driveCalls (s : Setup) (fuel : Nat) : List Event → List (OptsT × String × Option String) → Option (List (List Obs))
+  | _, [] => some []
+  | H, (o, u, b) :: rest =>
+    match drive s (s.cfgs base) s.config fuel (H ++ initialHistory o u b) [] with
+    | .done tr H' => (driveCalls s fuel H' rest).map (tr :: ·)
+    | _ => none
+
+/-- the same calls through `PipelineOpts.session` (the turn model with the carried `$skip_output_rails`) -/
+def sessionTraces (s : Setup) (calls : List (OptsT × String × Option String)) : Option (List (List Obs)) :=
+  (PipelineOpts.session PipelineOpts.Gd (toCfg s) false (calls.map fun c => ⟨c.1.map mkOpts, c.2.1, c.2.2, .general s.llmText⟩)).map
+    fun outs => outs.map fun o => o.trace.filterMap obsOfStep
+
+def exSessions : List (List (OptsT × String × Option String)) :=
+  [ [(some (true, false, false, false), "bad", none), (some (false, false, false, true), "hello", some "evil")],
+    [(some (true, false, false, false), "bad", none), (some (false, false, false, true), "hello", some "fine")],
+    [(some (true, false, false, true), "hi", some "evil"), (some (true, true, false, true), "hi", none)],
+    [(none, "hi", none), (some (true, false, false, false), "bad", none), (some (false, false, false, true), "x", some "evil")],
+    [(some (false, false, false, false), "bad", none), (some (true, true, true, true), "bad", none)] ]
+
+
 end NemoVerif.RailsInterp
